@@ -550,3 +550,54 @@ Proof.
       assert (Hnx : ~ exj ai (length (a_ents a)) ai' idx) by (intros (E1 & _); congruence).
       apply (g_arch_members0 ai' a' idx h Hnx Ha Hh).
 Qed.
+
+(* ------------------------------------------------------------------------------------------ *)
+(* the invariant reads the remaining commands only through the set of pending creations *)
+Lemma G_rem_ext {X} s hs al rem rem' : (forall k, pend rem' k <-> pend rem k) -> GE X s hs al rem -> GE X s hs al rem'.
+Proof.
+  intros Hp HG. constructor;
+    [apply (g_len HG)|apply (g_free_nodup HG)|apply (g_free_range HG)|apply (g_free_ver HG)|apply (g_hs_ver HG)|apply (g_hs_id HG)
+    |apply (g_hs_nodup HG)|apply (g_al_nodup HG)|apply (g_alive HG)| | |apply (g_slots HG)
+    |apply (g_arch_keys HG)|apply (g_arch_members HG)|apply (g_hist HG)].
+  - intros k Hk Hna Hnp. apply (g_dead HG k Hk Hna). intros Hp'. apply Hnp. apply Hp. assumption.
+  - intros k Hpk. apply (g_pend HG k). apply Hp. assumption.
+Qed.
+
+(* a creation issued while locked: a new handle (i, 0) with a fresh id beyond the slot table, pending *)
+Lemma G_add_pending s hs al rem rem' i :
+  G s hs al rem -> length (slots s) <= N.to_nat i -> (forall h, In h hs -> fst h <> i) -> (i < NULL_ID)%N ->
+  (forall k, pend rem' k <-> pend rem k \/ k = length hs) ->
+  G s (hs ++ [(i, 0%N)]) al rem'.
+Proof.
+  intros HG Hi Hfresh Hid Hp.
+  assert (Hold : forall k, pend rem k -> k < length hs) by (intros k Hk; apply (g_pend HG k Hk)).
+  constructor.
+  - apply (g_len HG).
+  - apply (g_free_nodup HG).
+  - apply (g_free_range HG).
+  - apply (g_free_ver HG).
+  - intros h Hin. apply in_app_or in Hin. destruct Hin as [Hin|[<-|[]]]; [apply (g_hs_ver HG); assumption|simpl; unfold NULL_VER; lia].
+  - intros h Hin. apply in_app_or in Hin. destruct Hin as [Hin|[<-|[]]]; [apply (g_hs_id HG); assumption|assumption].
+  - apply NoDup_app_intro_single; [apply (g_hs_nodup HG)|]. intros Hin. apply (Hfresh _ Hin). reflexivity.
+  - apply (g_al_nodup HG).
+  - intros k key Hin. destruct (g_alive HG k key Hin) as (Hk & Hl). rewrite app_length, hnd_app1 by assumption. split; [lia|assumption].
+  - intros k Hk Hna Hnp. rewrite app_length in Hk. simpl in Hk. destruct (Nat.eq_dec k (length hs)) as [->|Hne].
+    + exfalso. apply Hnp. apply Hp. right. reflexivity.
+    + rewrite hnd_app1 by lia. apply (g_dead HG k); [lia|assumption|]. intros Hpk. apply Hnp. apply Hp. left. assumption.
+  - intros k Hpk. apply Hp in Hpk. rewrite app_length. simpl. destruct Hpk as [Hpk| ->].
+    + destruct (g_pend HG k Hpk) as (A & B & C & D & U). rewrite hnd_app1 by assumption. split; [lia|]. split; [assumption|]. split; [assumption|].
+      split; [assumption|]. intros k' Hk' Hne. destruct (Nat.eq_dec k' (length hs)) as [->|Hne'].
+      * rewrite hnd_app_last. simpl. intros E. apply (Hfresh (hnd hs k)); [apply nth_In_hnd; assumption|congruence].
+      * rewrite hnd_app1 by lia. apply U; [lia|assumption].
+    + rewrite hnd_app_last. simpl. split; [lia|]. split.
+      * intros Ha. unfold alive in Ha. apply in_map_iff in Ha. destruct Ha as ((k0, key) & E & Hin). simpl in E. subst k0.
+        destruct (g_alive HG _ _ Hin) as (Hlt & _). lia.
+      * split; [reflexivity|]. split; [left; assumption|].
+        intros k' Hk' Hne. rewrite hnd_app1 by lia. apply Hfresh. apply nth_In_hnd. lia.
+  - intros j Hj. destruct (g_slots HG j Hj) as [H|[(k & key & Hin & E)|H]]; [left; assumption| |right; right; assumption].
+    right. left. exists k, key. split; [assumption|]. destruct (g_alive HG k key Hin) as (Hk & _). rewrite hnd_app1 by assumption. assumption.
+  - apply (g_arch_keys HG).
+  - intros ai a idx h Hx Ha Hh. destruct (g_arch_members HG ai a idx h Hx Ha Hh) as (k & A & B & C & D).
+    exists k. rewrite app_length, hnd_app1 by assumption. split; [assumption|]. split; [lia|]. auto.
+  - intros j sl v Hs Hn Hv. apply in_or_app. left. eapply (g_hist HG); eassumption.
+Qed.
